@@ -133,6 +133,10 @@ def run(ctx, build):
                 dims = [usid.Dimension('L%d' % d, 'U%d' % d, vals[d]) for d in range(k)]
                 try:
                     with common.quiet():
+                        if k >= 2 and gi % 3 == 0:
+                            # the caller's list is used for another write first: it must come back unchanged
+                            hist['descriptor_list_reused'] = hist.get('descriptor_list_reused', 0) + 1
+                            write_ind_val_dsets(h5.create_group('pre%05d' % gi), dims, is_spectral=is_spectral, slow_to_fast=s2f)
                         hi, hv = write_ind_val_dsets(grp, dims, is_spectral=is_spectral, slow_to_fast=s2f)
                 except Exception as e:
                     out.violations.append({'call_site': 'hdf_utils.write_ind_val_dsets', 'input_class': 'any', 'failure_mode': 'raises',
@@ -251,6 +255,24 @@ def run(ctx, build):
                                    'failure_mode': 'index_not_cartesian_fastest_first', 'what': 'sizes %s' % sizes,
                                    'case': {'sizes': sizes, 'is_spectral': True}})
         scribble(ind, val)
+    # designed: the step counts arrive as a numpy array of a narrow integer type (the running products must not wrap in it)
+    hist['narrow_typed_step_arrays'] = 0
+    for dt, sizes in ((np.uint8, [20, 20, 2]), (np.int8, [12, 11, 3]), (np.uint16, [300, 300, 2]), (np.int16, [200, 200, 3]), (np.uint8, [16, 16, 2]),
+                      (np.int32, [5, 4, 3])):
+        exp = fastest_first(sizes)
+        hist['narrow_typed_step_arrays'] += 1
+        for is_pos in (True, False):
+            try:
+                r = abu.make_indices_matrix(np.array(sizes, dtype=dt), is_position=is_pos)
+                a = np.array(r, dtype=np.int64)
+                a = a.T if is_pos else a
+                okn = a.shape == exp.shape and np.array_equal(a, exp)
+            except Exception as e:
+                okn = False
+            if not okn:
+                out.violations.append({'call_site': 'anc_build_utils.make_indices_matrix', 'input_class': 'any',
+                                       'failure_mode': 'not_cartesian_fastest_first', 'what': '%s as %s array' % (sizes, np.dtype(dt).name),
+                                       'case': {'sizes': sizes, 'is_position': is_pos, 'num_steps_dtype': np.dtype(dt).name}})
     h5.close()
     bad1, e1 = common.coq_eval_cases(ctx, HEADER, bcases, 'check08b', case_type='case08b', tag='b')
     bad2, e2 = common.coq_eval_cases(ctx, HEADER, wcases, 'check08w', case_type='case08w', tag='w')
